@@ -149,7 +149,7 @@ func runOwn1(m *Model, r *RuleResult) {
 	}
 	r.stat("locations_with_writes", len(seenLoc))
 	// NewEdge stores the constant Delta = 1 and takes weight/from/to from its parameters
-	if ne := m.SSAFunc("internal/graph", "NewEdge"); ne != nil {
+	if ne := m.anchorNewEdge(); ne != nil {
 		ok := false
 		eachInstr(ne, func(in ssa.Instruction) {
 			if st, isSt := in.(*ssa.Store); isSt {
